@@ -287,6 +287,9 @@ def run(tier):
         v.nontrivial((s["cls"], s["slot"], s["keyrel"], s["alt"]))
         rep.update({"ciphertext": ct[:200], "value_given_to_decrypt": value[:200], "exit": rc, "stdout": so.decode("utf-8", "replace")[-600:], "stderr": se.decode("utf-8", "replace")[:300]})
         marker = b"Raw value: "
+        if s["cls"] in ("unicode", "emailMixed") or s["alt"] == "flipMiddle":
+            v.sample({"scenario": s, "original": c["text"][:120], "ciphertext_in_output": ct[:120], "value_given_to_decrypt": value[:120], "decrypt_exit": rc,
+                      "decrypt_stdout_tail": so.decode("utf-8", "replace")[-160:]}, limit=3)
         if s["ok"]:
             want = marker + c["text"].encode("utf-8") + b"\n"
             i = so.find(marker)
